@@ -38,6 +38,8 @@ pub struct TestModel {
     pub last_chain: Mutex<HashMap<std::thread::ThreadId, i64>>,
     /// densities announce unrecoverable faults in the event stream (off for the sequential reference)
     pub announce: bool,
+    /// every chain starts from the same fixed point (the chains then differ only through their own random streams)
+    pub const_init: bool,
 }
 
 impl Model for TestModel {
@@ -72,6 +74,10 @@ impl Model for TestModel {
             .unwrap_or(&-2);
         if self.init_fail.contains(&chain) {
             anyhow::bail!("injected init_position failure for chain {chain}");
+        }
+        if self.const_init {
+            position.copy_from_slice(&self.init);
+            return Ok(());
         }
         // like a real model: the start point comes from the chain's own random stream
         for (p, base) in position.iter_mut().zip(self.init.iter()) {
@@ -187,6 +193,8 @@ impl ChainStorage for RecChain {
         Ok(Some((self.chain, self.log.clone())))
     }
     fn flush(&self) -> anyhow::Result<()> {
+        // Sampler::flush must reach the storage of every chain (also of one that has already recorded its last draw)
+        uemit(json!({"ev": "st_flush", "i": self.chain}));
         Ok(())
     }
 }
@@ -362,6 +370,7 @@ fn run_one<S: Settings>(sc: &J) -> Vec<J> {
         delays: delays.clone(),
         last_chain: Mutex::new(HashMap::new()),
         announce: true,
+        const_init: sc["const_init"] == true,
     };
     let total = settings.hint_num_tune() + settings.hint_num_draws();
     // sequential reference (no faults, no delays): Full(i)
